@@ -779,6 +779,11 @@ pub fn generate_code(context: &Context) -> Result<u32, &'static str>
             None => return Err("Failed to insert references"),
         };
 
+        if reference_updates.failure
+        {
+            return Err("Failed to update one or more files");
+        }
+
         info!(
             "[ref: 21] Num. inserted reference(s): {}",
             reference_updates.num_inserted_references
